@@ -16,7 +16,8 @@ import json
 PROPERTY_ID = "C12"
 LEVEL = "exploration"
 RULE = (
-    "cases = histories over {a subscribe{1.9,1.10}, b subscribe{2.9,1.9,3.13} (overlapping, 3 aids), u unsubscribe{1.9},"
+    "cases = histories over {a subscribe{1.9,1.10}, b subscribe{2.9,1.9,3.13} (overlapping, 3 aids), c subscribe to 8 ids of 3"
+    " aids given in interleaved order, O a 12 s network outage during which the next subscribe call cannot connect, u unsubscribe{1.9},"
     " v unsubscribe{2.9,1.10}, l add listener, x add raising listener, r remove oldest listener, D peer drops the idle"
     " connection, S peer drops mid-subscribe (next subscription request is cut off), Z peer resets with a request in flight,"
     " e one event, t 3 events in one write, p one event in 3 pieces, f event spanning 16-byte frames, m one EVENT carrying"
@@ -36,9 +37,11 @@ TIMEOUT = {"quick": 900, "thorough": 7200}
 MIN_CASES = {"quick": 4000, "thorough": 80000}
 REQUIRED_COUNTERS = ["events_sent", "listener_logs_checked", "reconnects_checked", "resubscriptions_verified", "raising_listener_isolated", "polling_fallback_histories", "connection_back_events"]
 
-ALPHABET = "abuvlxrDSZetpfmnjq"
+ALPHABET = "abcuvlxrDSZOetpfmnjq"
 SUB_A = [(1, 9), (1, 10)]
 SUB_B = [(2, 9), (1, 9), (3, 13)]
+# interleaved accessory ids, as a caller may well pass them
+SUB_C = [(1, 9), (2, 9), (1, 10), (3, 13), (2, 10), (1, 13), (3, 9), (2, 13)]
 
 
 class Listener:
@@ -125,12 +128,33 @@ class History:
         p = w.pairing
         conn = self.current_conn()
         n_conns = len([c for c in w.accessory.conns if c.secure])
-        if a in "abuv":
+        if a == "O":
+            # outage: the accessory drops the connection and is unreachable; a subscribe call made now cannot connect (its
+            # own 10 s wait expires, no subscription request is ever sent); then the accessory comes back
+            self.outage = True
+            if conn is not None:
+                conn.close()
+            await vloop.settle()
+            try:
+                await asyncio.wait_for(p.subscribe(SUB_A), 60)
+            except Exception:  # noqa: BLE001
+                pass
+            await asyncio.sleep(2.5)
+            self.outage = False
+            for _ in range(40):
+                await asyncio.sleep(0.5)
+                await vloop.settle()
+                if w.connection.is_connected:
+                    break
+            self.ctx.count("outages_with_subscribe")
+        if a in "abcuv":
             from aiohomekit.exceptions import AccessoryDisconnectedError
 
             try:
                 if a == "a":
                     await asyncio.wait_for(p.subscribe(SUB_A), 60)
+                elif a == "c":
+                    await asyncio.wait_for(p.subscribe(SUB_C), 60)
                 elif a == "b":
                     await asyncio.wait_for(p.subscribe(SUB_B), 60)
                 elif a == "u":
@@ -217,7 +241,7 @@ class History:
                 self.sent.append((self.step, exp))
         await vloop.settle()
         # a lost connection is re-established by the pairing itself; give it (virtual) time
-        if a in "DSZ" or (a in "abuv" and self.current_conn() is None):
+        if a in "DSZ" or (a in "abcuv" and self.current_conn() is None):
             for _ in range(6):
                 if w.connection.is_connected:
                     break
@@ -235,7 +259,11 @@ class History:
         if conn is None or not w.connection.is_connected:
             return
         if not w.pairing.supports_subscribe:
-            self.fallback = True
+            # the polling fallback is legitimate only if a subscription request was really cut off by a disconnection -
+            # decided by the simulated accessory (it received such a request and closed instead of answering), not by the flag
+            if not self.fallback:
+                self.violation("polling-fallback-without-cut-off-subscription",
+                               f"after {a!r}: supports_subscribe is off although no subscription request was ever cut off by a disconnection")
             return
         want = set(w.pairing.subscriptions)
         if not want <= conn.subscriptions:
@@ -251,7 +279,8 @@ class History:
         from vf import simnet, vloop
 
         ctx = self.ctx
-        w = self.w = simnet.World(self.rng)
+        self.outage = False
+        w = self.w = simnet.World(self.rng, behaviour=lambda host, attempt: "refuse" if self.outage else "accept")
         w.accessory.script_for = lambda host, attempt: simnet.ConnScript(responder=self.responder)
         loop = asyncio.get_running_loop()
         loop.captured.clear()
@@ -309,7 +338,7 @@ class History:
 
 
 def nontrivial(actions: str) -> bool:
-    return any(ch in actions for ch in "DSZetpfmq")
+    return any(ch in actions for ch in "DSZOetpfmq")
 
 
 async def run_one(ctx, actions: str, key) -> None:
@@ -324,7 +353,7 @@ def run(ctx) -> None:
 
     async def main():
         idx = 0
-        for prefix in ("la", "xlb", "al"):
+        for prefix in ("la", "xlb", "lc"):
             for tail in itertools.product(ALPHABET, repeat=depth):
                 idx += 1
                 if ctx.mine(idx):
@@ -333,7 +362,7 @@ def run(ctx) -> None:
         rng = ctx.rng("C12.random")
         for k in range(ctx.pick(3000, 40000) // ctx.nshards):
             n = rng.randint(10, 40)
-            actions = "".join(rng.choice("aabuvllxrDDSZeeetpfmnjq") for _ in range(n))
+            actions = "".join(rng.choice("aabcuvllxrDDSZOeeetpfmnjq") for _ in range(n))
             await run_one(ctx, actions, ("rand", ctx.shard, k))
 
     vloop.run(main())
